@@ -526,8 +526,8 @@ theorem mkdirFrom_led (env : Env) (perm : Nat) (handle : Fd) (remaining : Option
     Led ext (ins handle S0) (Root.mkdirFrom env perm handle remaining) (PostFd S0) := by
   unfold Root.mkdirFrom
   have hcleanup : LedP ext (ins handle S0)
-      (Prog.bind (Sys.freeze Sys.diagFuel handle) fun _ => Sys.close handle) (fun _ S' => S' = S0) :=
-    LedP.bind_ro (freeze_led _ _) (fun _ => LedP.close_to S0 (by fdset) (by fdset))
+      (Prog.bind (Sys.freeze handle) fun _ => Sys.close handle) (fun _ S' => S' = S0) :=
+    LedP.bind_ro (freeze_led _) (fun _ => LedP.close_to S0 (by fdset) (by fdset))
   refine Led.bind_onErr_fd S0 (reopen_led env handle O_DIRECTORY) hcleanup ?_ PostFd.err
   intro cur hcur
   dsimp only
